@@ -688,6 +688,8 @@ def check_C15(tier):
     engine_run(c, "order-real-column", "RealMenu", lines="LinesReal", maxlines=3, maxfiles=1, tdefs=("vreal",), invs=["TypeOK", "BatchRefinesSem", "PermLaw"], props=())
     # order-insensitive aggregates over TIMESTAMP / INTERVAL values with NULLs in every position of a group (every ordering of every input)
     engine_run(c, "order-calendar", "CalAggMenu", lines="LinesCal", maxlines=3, maxfiles=1, tdefs=("plain",), invs=["TypeOK", "BatchRefinesSem", "PermLaw"], props=())
+    # an expression under SUM / AVG / MIN / MAX that overflows on one row of a group: the same error for every order of the rows
+    engine_run(c, "order-overflow", "OverflowAggMenu", lines="LinesOvf", maxlines=3, maxfiles=1, tdefs=("plain",), modes=("batch", "incr"), invs=["TypeOK", "BatchRefinesSem", "PermLaw"], props=())
     # COUNT(DISTINCT) with up to 10 distinct values and recurrences: long random inputs
     engine_sim(c, "count-distinct", "DistinctCountMenu", lines="LinesDistinct", maxlines=16, num=4000 if t else 500, modes=("batch",), invs=["TypeOK", "BatchRefinesSem"])
     engine_sim(c, "count-distinct-wide", "DistinctCountMenu", lines="LinesDistinctWide", maxlines=48, num=1000 if t else 70, modes=("batch",), invs=["TypeOK", "BatchRefinesSem"], minlines=40)
